@@ -39,7 +39,8 @@ RULE = ("complete call trees: every word over an alphabet of 3-8 calls (in- / ou
         "implementation's phase (threshold classifier with a user margin function, hard and fractional signals; linear SVC with the "
         "default margin function), ~15 % calls illegal for the phase, 25 % malformed labels, explicit set_reference (also while waiting, "
         "also renaming columns before any label is stored), oracle lengths below k (KFold failure); two-pass cases with the sensitivity "
-        "set to an attained level/std ratio. Non-trivial: the case contains a warning, a refusal and a resolution.")
+        "set to an attained level/std ratio. Non-trivial: the case contains a warning, a refusal and a resolution."
+        " Also: reference frames with a non-default index (a permutation of 0..N-1).")
 ASSUMPTIONS = ["quantifier restriction (DESIGN.md C19, proved necessary: C19_oracle_length_below_k_never_resolves): "
                "oracle_data_length_required >= k; histories start with a successful set_reference whose target column exists",
                "the k-fold reference statistics, the margin function's value and classifier.predict are oracle inputs of the model "
